@@ -214,6 +214,8 @@ func C11(p *load.Prog, r *oblig.Run) {
 	r.Rule("R11.d", "each already-sent map is keyed only by individuals of the side it stands for", 6)
 	r.Rule("R11.e", "a job producer that tests one already-sent map before sending tests every map it marks", 1)
 	sentSides(p, r, "R11.d", "R11.e", concurrentRegion(g, root))
+	r.Rule("R11.i", "every mutex taken in the matching pipeline is released on every path", 1)
+	lockPairing(p, r, "R11.i", map[string]bool{load.PkgRoot: true, load.PkgUtil: true})
 	r.Rule("R11.f", "util.WorkerPool starts exactly the requested number of workers", 1)
 	workerCount(p, r, "R11.f")
 	r.Rule("R11.g", "a pipeline stage's goroutine does nothing after closing the channel the stage returned", 3)
